@@ -506,6 +506,10 @@ func runC01(c *Ctx, r *Report) {
 	// ---- R10 ---- the error of a binding call is looked at
 	c.checkBindingErrorsUsed(r, "C01.R10")
 
+	// shared C05.R12: an INTEGER test recognises registers too (operators dispatch on it)
+	r.Rule("C05.R12", "(shared) an ==/!= test of x.Type() against INTEGER on a value that may be a register is accompanied by a REGISTER test on the same value: otherwise an operator takes another arm for an integer held in a register")
+	c.checkRegisterIsInteger(r, "C05.R12")
+
 	// ---- R9 ---- every loop form implements break and continue
 	c.checkLoopControl(r, "C01.R9")
 
